@@ -5,6 +5,7 @@ CONSTANTS
   Bundles <- Ca1Only
   Ctxs <- Wide
   Reqs <- FullReq
+  Calls <- OneCall
   Tries <- One
   Hists <- NoHist
   BackoffCfgs <- NoBoCfgs
